@@ -1047,6 +1047,7 @@ def translate_all(src_root=None):
     out.append(translate_plans(src_root, known, known_params))
     out.append(translate_on_done(src_root, known, known_params, known_recursive))
     out.append(translate_descent(src_root, known, known_params, known_recursive))
+    out.append(translate_skeletons(src_root))
     return "\n".join(out)
 
 
@@ -1345,6 +1346,150 @@ def translate_descent(src_root, known, known_params, known_recursive):
         seg = ast.get_source_segment(text, fdef) or ""
         out.append(f"(* {fname} :: {func}  sha256[:16]={hashlib.sha256(seg.encode()).hexdigest()[:16]}: what is entered by default below one state of the list *)")
         out.append(fn.translate())
+    return "\n".join(out)
+
+
+# ---------------------------------------------------------------------------------------------------------------------
+# EFFECT SKELETONS of _exit_states and _enter_states (both engines' copies): in which ORDER the effects of leaving / entering
+# one state happen.  Emitted as data (lists over the effect alphabets of Model/TreeLib.v); their interpreter is in Coq and is
+# proved equal to the model's exit_states / enter_one (Proofs/SkeletonBridge.v).
+def _find_method(src_root, fname, cls, func):
+    text = open(os.path.join(src_root, fname), encoding="utf-8").read()
+    module = ast.parse(text)
+    for n in module.body:
+        if isinstance(n, ast.ClassDef) and n.name == cls:
+            for f in n.body:
+                if isinstance(f, (ast.FunctionDef, ast.AsyncFunctionDef)) and f.name == func:
+                    return text, f
+    raise Untranslatable(f"{fname}: {func} not found")
+
+
+def _call_of(s):
+    if isinstance(s, ast.Expr):
+        c = s.value.value if isinstance(s.value, ast.Await) else s.value
+        if isinstance(c, ast.Call):
+            return c
+    return None
+
+
+def exit_skeleton(src_root, fname, cls):
+    text, fdef = _find_method(src_root, fname, cls, "_exit_states")
+    src = f"{fname}:_exit_states"
+    steps = []
+    for st in fdef.body:
+        if _is_logger(st) or (isinstance(st, ast.Expr) and isinstance(st.value, ast.Constant)):
+            continue
+        tgt = st.targets[0] if isinstance(st, ast.Assign) and len(st.targets) == 1 else None
+        if isinstance(tgt, ast.Name) and tgt.id == "trigger_event":
+            continue
+        c = _call_of(st)
+        if c is not None and ast.unparse(c) == "self._record_history(states_to_exit)":
+            steps.append("XRecord")
+            continue
+        if isinstance(st, ast.For) and ast.unparse(st.target) == "state" and ast.unparse(st.iter) == "states_to_exit" and not st.orelse:
+            effs = []
+            for b in st.body:
+                if _is_logger(b):
+                    continue
+                cb = _call_of(b)
+                txt = ast.unparse(cb) if cb is not None else ""
+                if txt == "self._cancel_state_tasks(state)":
+                    effs.append("XCancel")
+                elif cb is not None and ast.unparse(cb.func) == "self._execute_actions" and len(cb.args) == 2 and ast.unparse(cb.args[0]) == "state.exit":
+                    effs.append("XActions")
+                elif txt == "self._active_state_nodes.discard(state)":
+                    effs.append("XLeave")
+                else:
+                    raise Untranslatable(f"{src}:{b.lineno}: unexpected statement in the exit loop: {ast.unparse(b)[:80]}")
+            steps.append("XLoop [" + "; ".join(effs) + "]")
+            continue
+        raise Untranslatable(f"{src}:{st.lineno}: unexpected statement: {ast.unparse(st)[:80]}")
+    seg = ast.get_source_segment(text, fdef) or ""
+    return "[" + "; ".join(steps) + "]", hashlib.sha256(seg.encode()).hexdigest()[:16]
+
+
+def entry_skeleton(src_root, fname, cls):
+    text, fdef = _find_method(src_root, fname, cls, "_enter_states")
+    src = f"{fname}:_enter_states"
+    loops = [st for st in fdef.body if isinstance(st, ast.For)]
+    if len(loops) != 1:
+        raise Untranslatable(f"{src}: expected one loop")
+
+    def classify(st):
+        c = _call_of(st)
+        if c is None:
+            return None
+        txt = ast.unparse(c)
+        if txt == "self._active_state_nodes.add(state)":
+            return "NAdd"
+        if ast.unparse(c.func) == "self._execute_actions" and len(c.args) == 2 and ast.unparse(c.args[0]) == "state.entry":
+            return "NActions"
+        if txt == "self._schedule_state_tasks(state)":
+            return "NSchedule"
+        if txt == "self._check_and_fire_on_done(state)":
+            return "NFinalCheck"
+        if ast.unparse(c.func) == "self._enter_states":
+            return "NDescend"
+        return None
+
+    paths = []
+
+    def walk(stmts, acc, k):
+        """enumerate the paths through stmts; k(acc) continues after them"""
+        if not stmts:
+            return k(acc)
+        st, rest = stmts[0], stmts[1:]
+        if _is_logger(st) or (isinstance(st, ast.Expr) and isinstance(st.value, ast.Constant)) or isinstance(st, (ast.Assign, ast.AnnAssign)):
+            return walk(rest, acc, k)
+        if isinstance(st, ast.Continue):
+            paths.append((acc, "continue"))
+            return
+        if isinstance(st, ast.Raise):
+            paths.append((acc + ["NDescend"], "raise"))
+            return
+        if isinstance(st, ast.If):
+            guard_final = ast.unparse(st.test) in ("state.is_final", "state.type == 'final'")
+            body_kinds = [classify(b) for b in st.body if not _is_logger(b)]
+            if "NFinalCheck" in body_kinds and not (guard_final and body_kinds == ["NFinalCheck"] and not st.orelse):
+                raise Untranslatable(f"{src}:{st.lineno}: the done check is not `if <state is final>: check`")
+            walk(st.body, acc, lambda a: walk(rest, a, k))
+            walk(st.orelse, acc, lambda a: walk(rest, a, k))
+            return
+        kind = classify(st)
+        if kind is None:
+            raise Untranslatable(f"{src}:{st.lineno}: unexpected statement in the entry loop: {ast.unparse(st)[:80]}")
+        return walk(rest, acc + [kind], k)
+
+    walk(loops[0].body, [], lambda a: paths.append((a, "end")))
+    kinds = ["NAdd", "NActions", "NSchedule", "NFinalCheck", "NDescend"]
+    before = set()
+    for acc, how in paths:
+        if len(set(acc)) != len(acc):
+            raise Untranslatable(f"{src}: an effect happens twice on one path: {acc}")
+        if acc[:2] != ["NAdd", "NActions"]:
+            raise Untranslatable(f"{src}: a path does not start with add, entry actions: {acc}")
+        if how != "raise" and "NSchedule" not in acc:
+            raise Untranslatable(f"{src}: a path that does not raise never schedules the state's tasks: {acc}")
+        for i, a in enumerate(acc):
+            for b in acc[i + 1:]:
+                before.add((a, b))
+    for a in kinds:
+        for b in kinds:
+            if a != b and ((a, b) in before) == ((b, a) in before):
+                raise Untranslatable(f"{src}: the order of {a} and {b} is {'contradictory' if (a, b) in before else 'never determined'}")
+    order = sorted(kinds, key=lambda x: sum(1 for y in kinds if (y, x) in before))
+    seg = ast.get_source_segment(text, fdef) or ""
+    return "[" + "; ".join(order) + "]", hashlib.sha256(seg.encode()).hexdigest()[:16]
+
+
+def translate_skeletons(src_root):
+    out = []
+    for fname, cls, suffix in (("base_interpreter.py", "BaseInterpreter", "async"), ("sync_interpreter.py", "SyncInterpreter", "sync")):
+        sk, dg = exit_skeleton(src_root, fname, cls)
+        out.append(f"(* {fname} :: _exit_states  sha256[:16]={dg}: the order of its effects *)\nDefinition exit_skeleton_{suffix} : list xstep := {sk}.\n")
+        sk, dg = entry_skeleton(src_root, fname, cls)
+        out.append(f"(* {fname} :: _enter_states  sha256[:16]={dg}: the order of the effects of entering one state (every path through the loop body agrees with it) *)\n"
+                   f"Definition entry_skeleton_{suffix} : list neff := {sk}.\n")
     return "\n".join(out)
 
 
